@@ -103,6 +103,10 @@ class Symb:
       return sp.Symbol(a[0])
     if op == 'bin':
       o, x, y = a
+      if o == '+':
+        parts = self._seq_parts(t)
+        if parts is not None:
+          return self.f('seq_', *parts)        # concatenation of sequences keeps its order
       x, y = self.conv(x), self.conv(y)
       try:
         if o == '+':
@@ -157,10 +161,53 @@ class Symb:
     if op == 'slice':
       return self.f('slice_', *[self._as_expr(self.conv(x)) for x in a])
     if op in ('tuple', 'list'):
-      return self.f(op + '_', *[self._as_expr(self.conv(x)) for x in a])
+      return self.f('seq_', *self._seq_parts(t))
     if op == 'call':
+      if a[0].op == 'builtin' and a[0].args[0] in ('tuple', 'list') and len(a[1]) == 1 and not a[2]:
+        return self.f('seq_', *self._seq_parts(t))
       return self._call(t)
+    if op == 'star' and len(a) == 2 and a[1].op == 'compdom':
+      # an element of a comprehension: compared structurally (element expression, iterable, filters)
+      return self.f('star_', self._as_expr(self.conv(a[0])), self.f('compdom_', *[self._as_expr(self.conv(x)) for x in a[1].args]))
+    if op == 'elem' and len(a) == 1:
+      return self.f('elem_', self._as_expr(self.conv(a[0])))
     return self.opaque_sym(t)
+
+  _DOMS = ('compdom', 'loopdom', 'repeat', 'sliceof', 'guarded', 'mapdom', 'filtered', 'loopacc_dom')
+
+  def _seq_parts(self, t):
+    """Normal form of python sequences: `(*xs, a)`, `tuple(xs) + (a,)`, `[*xs] + [a]`, `list(xs) + [a]` and
+    `[x for x in xs] + [a]` are one sequence seq_(splat_(xs), a).  None when t is not a sequence expression."""
+    if t.op in ('tuple', 'list'):
+      parts = []
+      for e in t.args:
+        if e.op == 'star' and len(e.args) == 2:
+          dom = e.args[1]
+          if dom.op not in self._DOMS:
+            parts.append(self.f('splat_', self._as_expr(self.conv(dom))))
+            continue
+          if dom.op == 'compdom' and len(dom.args) == 1 and self._is_generic_element(e.args[0], dom.args[0]):
+            parts.append(self.f('splat_', self._as_expr(self.conv(dom.args[0]))))
+            continue
+        parts.append(self._as_expr(self.conv(e)))
+      return parts
+    if t.op == 'call' and t.args[0].op == 'builtin' and t.args[0].args[0] in ('tuple', 'list') and len(t.args[1]) == 1 and not t.args[2]:
+      inner = self._seq_parts(t.args[1][0])
+      return inner if inner is not None else [self.f('splat_', self._as_expr(self.conv(t.args[1][0])))]
+    if t.op == 'bin' and t.args[0] == '+':
+      l, r = self._seq_parts(t.args[1]), self._seq_parts(t.args[2])
+      if l is not None and r is not None:
+        return l + r
+    return None
+
+  @staticmethod
+  def _is_generic_element(e, it):
+    """e is the generic element of the iterable `it` (an identity comprehension)"""
+    if e.op == 'elem' and len(e.args) == 1 and e.args[0] is it:
+      return True
+    if e.op == 'rangevar' and it.op == 'call' and it.args[0].op == 'builtin' and it.args[0].args[0] == 'range':
+      return tuple(x for x in e.args if x.op != 'depth') == tuple(it.args[1])
+    return False
 
   def _shape_arg(self, args):
     """x.reshape(a, b), x.reshape((a, b)), jnp.reshape(x, [a, b]) all carry the shape tuple_(a, b)"""
@@ -168,7 +215,7 @@ class Symb:
       args = list(args[0].args)
     elif len(args) == 1:
       return self._as_expr(self.conv(args[0]))
-    return self.f('tuple_', *[self._as_expr(self.conv(x)) for x in args])
+    return self.f('seq_', *[self._as_expr(self.conv(x)) for x in args])
 
   def _as_expr(self, x):
     if x is sp.true:
